@@ -289,6 +289,7 @@ func init() {
 					return
 				}
 				s := string(b)
+				c.CurCase(func() *fw.Case { return &fw.Case{Kind: "c10-codec", S: fw.Strs("userinfo", s), N: []int{0}} })
 				for i := range namedSets {
 					ns := &namedSets[i]
 					c.Eval()
